@@ -185,6 +185,27 @@ def check(case):
                           f"look {math.degrees(look)!r} deg, zero distance {Dz!r} ft: {raised} (contraction per iteration ~{q:.2f}, "
                           f"initial error {e0!r} ft, {n_it} iterations)")
                     return r
+            # third recorded finding: the solver switches wind at the first integration point at or beyond a boundary, so
+            # the height at the zero distance is a sawtooth function of the elevation (it jumps whenever an integration
+            # point crosses the boundary; the jump is the first-order wind-switch jitter of C01).  If the root falls
+            # inside such a jump the iteration oscillates across it for ever.  Predicate: a wind boundary lies inside the
+            # flight, and two consecutive iterates a few micro-radians apart have errors of opposite sign and comparable
+            # size (a smooth function whose slope is below the assumed one cannot do that).
+            if isinstance(raised, pb.ZeroFindingError) and raised.iterations_count >= n_it and \
+                    any(0 < w[2] < Rh for w in (spec.get("winds") or [])) and any(w[0] > 0 for w in (spec.get("winds") or [])):
+                e_a = raised.last_barrel_elevation.raw_value
+                y_a = _height_at(c3, spec, e_a, Rh)
+                if y_a is not None:
+                    err_a = y_a - aim_y
+                    e_b = e_a - err_a / Rh * math.cos(look) ** 2
+                    y_b = _height_at(c3, spec, e_b, Rh)
+                    if y_b is not None:
+                        err_b = y_b - aim_y
+                        if err_a * err_b < 0 and abs(e_a - e_b) < 1e-4 and min(abs(err_a), abs(err_b)) >= 0.5 * max(abs(err_a), abs(err_b)):
+                            r.bad("C02:fails-on-reachable-target:limit-cycle-across-wind-switch-jump",
+                                  f"look {math.degrees(look)!r} deg, zero distance {Dz!r} ft: {raised}; elevations {e_a!r} and {e_b!r} rad give errors "
+                                  f"{err_a!r} and {err_b!r} ft (jump across zero)")
+                            return r
             r.bad("C02:fails-on-reachable-target" + (":steep-look" if steep else ""),
                   f"look {math.degrees(look)!r} deg, zero distance {Dz!r} ft (config {cfg}): {type(raised).__name__}: {raised} although elevations "
                   f"between the sight line and +30 deg bracket the aim point with a well-conditioned solution")
